@@ -55,7 +55,7 @@ OP_WEIGHTS = {
     "add": 4, "sub": 3, "restep": 3, "reversed": 4, "copy": 3, "from_ends": 5, "pow": 3, "resolve": 4,
     "distance": 3, "index": 4, "slice": 4, "contains": 2, "eq": 2, "encompassing": 2, "from_until": 2,
     "p_arith": 5, "p_compare": 4, "p_hash": 3, "p_calendar": 5, "p_keyword": 4, "p_mix": 3, "p_span_ops": 2,
-    "resolve_mix": 2,
+    "resolve_mix": 2, "p_derive": 4,
 }
 MUTATING = {"reverse", "shift", "shift_start", "shift_end"}
 MAX_SPAN = 400      # periods; longer spans only make the per-step full comparison slow
@@ -110,8 +110,9 @@ class DatesWorld(World):
         disabled = [k for k in kinds if k not in ("new_period", "new_span") and rng.random() < 0.2]
         weights = {k: (0 if k in disabled else OP_WEIGHTS[k] * rng.choice([1, 1, 2, 3])) for k in kinds}
         return {
-            "world": cls.NAME, "freqs": freqs, "spans": rng.randint(2, 6), "periods": rng.randint(2, 8),
-            "actors": rng.randint(1, 3), "steps": rng.choice([20, 40, 40]),
+            "world": cls.NAME, "freqs": freqs, "spans": rng.randint(2, 6) if tier == "quick" else rng.randint(2, 9),
+            "periods": rng.randint(2, 8) if tier == "quick" else rng.randint(2, 12),
+            "actors": rng.randint(1, 3), "steps": rng.choice([20, 40, 40]) if tier == "quick" else rng.choice([20, 40, 80, 150]),
             "year_focus": rng.choice([[1999, 2000, 2001], [2019, 2020, 2021], [2023, 2024, 2025], [5, 1900, 2100, 9990], [1600, 2400]]),
             "p_contextual": rng.choice([0.0, 0.15, 0.3]),
             "weights": weights,
@@ -207,7 +208,7 @@ class DatesWorld(World):
             makes_span = kind in ("new_span", "add", "sub", "restep", "reversed", "copy", "from_ends", "pow", "resolve", "encompassing")
             if makes_span and len(self.spans) >= cfg["spans"] + 1:
                 kind = "drop"
-            if kind == "new_period" and len(self.periods) >= cfg["periods"]:
+            if kind in ("new_period", "p_derive") and len(self.periods) >= cfg["periods"]:
                 kind = "drop"
             step = getattr(self, "_gen_" + kind)(actor, rng)
             if step is not None:
@@ -429,6 +430,18 @@ class DatesWorld(World):
         a.update(extra)
         return {"op": op, "args": a}
 
+    def _gen_p_derive(self, actor, rng):
+        """A period obtained from a live one (arithmetic, shift, an end point of a live span) joins the population."""
+        if rng.random() < 0.35 and self.spans:
+            s = self._pick_span(rng, actor, lambda m: not m.contextual)
+            if s is not None:
+                return {"op": "p_derive", "out": [self._name("p")], "args": {"s": s, "how": rng.choice(["span_start", "span_end", "span_item"])}}
+        p = self._pick_period(rng)
+        if p is None:
+            return None
+        return {"op": "p_derive", "out": [self._name("p")], "args": {"p": p, "how": rng.choice(["add", "radd", "sub", "shift", "copy"]),
+                                                                   "n": rng.choice([-13, -4, -1, 1, 2, 5, 12])}}
+
     def _gen_p_arith(self, actor, rng):
         return self._gen_p(actor, rng, "p_arith", same_freq_pair=True, n=rng.choice([-400, -53, -13, -5, -1, 0, 1, 4, 12, 366, 731]))
 
@@ -526,6 +539,9 @@ class DatesWorld(World):
         again = [(letter(p), int(p.serial)) for p in real]
         if again != got:
             bad("second iteration differs from the first")
+        for label, end, serial in (("start", real.start, m.a), ("end", real.end, m.b)):
+            if hash(end) != hash(P(m.f, serial)):
+                bad(f"{label} hashes differently from an equal, freshly built period")
         if len(r):
             for i in (0, -1, len(r) // 2):
                 if int(real[i].serial) != r[i]:
@@ -856,6 +872,41 @@ class DatesWorld(World):
         return "ok"
 
     # -- period operations ------------------------------------------------------------------------
+    def _do_p_derive(self, step, a):
+        how = a["how"]
+        if "s" in a:
+            real, m = self.spans[a["s"]]
+            r = m.rng()
+            if how == "span_start":
+                q, want = self._guard("p_derive." + how, m.f, lambda: real.start), m.a
+            elif how == "span_end":
+                q, want = self._guard("p_derive." + how, m.f, lambda: real.end), m.b
+            else:
+                if not len(r):
+                    return "skipped"
+                q, want = self._guard("p_derive." + how, m.f, lambda: real[len(r) // 2]), r[len(r) // 2]
+            f = m.f
+        else:
+            p, (f, s) = self.periods[a["p"]]
+            n = a["n"]
+            if not cal.valid_serial(f, s + n) or not cal.valid_serial(f, s - n):
+                return "skipped"
+            table = {"add": (lambda: p + n, s + n), "radd": (lambda: n + p, s + n), "sub": (lambda: p - n, s - n),
+                     "shift": (lambda: p.shift(n), s + n), "copy": (lambda: p.copy(), s)}
+            thunk, want = table[how]
+            q = self._guard("p_derive." + how, f, thunk)
+        if letter(q) != f or int(q.serial) != want:
+            raise Violation("refine", "p_derive." + how, f, "", f"derived period is {q!r}, expected serial {want}")
+        twin = P(f, want)
+        if hash(q) != hash(twin) or not (q == twin) or len({q, twin}) != 1:
+            raise Violation("refine", "p_derive." + how, f, "", f"a period obtained by `{how}` is equal to a freshly built {twin!r} but hashes differently (or is not equal)")
+        h = step["out"][0]
+        self.periods[h] = (q, (f, want))
+        self.owner[h] = step.get("actor", "a0")
+        self.snaps[h] = (type(q).__name__, int(q.serial))
+        self._after("p_derive." + how, f)
+        return "ok"
+
     def _do_p_arith(self, step, a):
         p, (f, s) = self.periods[a["p"]]
         q, (g, t) = self.periods[a["q"]]
@@ -905,7 +956,7 @@ class DatesWorld(World):
             d = {}
             for h, (x, _) in self.periods.items():
                 d[x] = h
-            ok_hash = hash(p) == hash(twin)
+            ok_hash = hash(p) == hash(twin) and all(hash(x) == hash(P(*mm)) for x, mm in self.periods.values())
             ok_lookup = twin in d and self.periods[d[twin]][1] == (f, s)
             ok_set = len({p, twin}) == 1
             other = P(f, s + 1)
